@@ -789,6 +789,20 @@ func NeedsOptsVariant(r *rng.R, f *ach.File, v *OptVariant) (out *ach.File) {
 		for i := range g.IATBatches {
 			g.IATBatches[i].SetValidation(o)
 		}
+		if r.Bool() {
+			// … or another, unrelated option set (one relaxation the content does not need): operations that combine the
+			// file's options with a batch's (SegmentFile, MergeFiles) then merge two different non-nil sets
+			other := &ach.ValidateOpts{}
+			switch {
+			case !o.BypassDestinationValidation:
+				other.BypassDestinationValidation = true
+			case !o.AllowZeroBatches:
+				other.AllowZeroBatches = true
+			default:
+				other.AllowInvalidAmounts = true
+			}
+			g.SetValidation(other)
+		}
 	default:
 		ApplyOpts(g, o)
 	}
